@@ -330,16 +330,92 @@ func checkC13(c *Ctx, n int) {
 			}
 			ini.WriteString("[" + secName + "]\n")
 		}
+		// repeated entries accumulate whichever of the option's names each of them uses: with two or more
+		// entries, half of the cases name the option differently from entry to entry
+		entryNames := make([]string, len(vals))
+		for j := range entryNames {
+			entryNames[j] = name
+		}
+		if len(vals) >= 2 && forceName == "" && c.Rng.Intn(2) == 0 {
+			var alts []string
+			for _, cand := range names {
+				res := resolveIniName(s.opts, cand)
+				if s.name == "" && len(s.path) == 0 {
+					res = resolveGlobalIniName(real.p.Command.Group, cand)
+				}
+				if splitAt >= 0 && resolveGlobalIniName(real.p.Command.Group, cand) != target {
+					continue
+				}
+				if res == target && cand == strings.TrimSpace(cand) && !strings.ContainsAny(cand, "=[;#") {
+					alts = append(alts, cand)
+				}
+			}
+			if len(alts) >= 2 {
+				for j := range entryNames {
+					entryNames[j] = alts[c.Rng.Intn(len(alts))]
+				}
+				// (the ini-name last: a name the option was read under before must not displace it)
+				if in := reflectTag(target, "ini-name"); in != "" && c.Rng.Intn(2) == 0 {
+					for _, a := range alts {
+						if a == in {
+							entryNames[len(entryNames)-1] = in
+							if entryNames[0] == in {
+								entryNames[0] = alts[0]
+							}
+						}
+					}
+				}
+				c.Class("c13/entries-of-one-option-under-different-names")
+			}
+		}
 		argv := append([]string{}, s.path...)
 		for vi, v := range vals {
 			if vi == splitAt {
 				ini.WriteString("[" + secondHeader + "]\n")
 			}
-			ini.WriteString(name + " = " + v + "\n")
+			ini.WriteString(entryNames[vi] + " = " + v + "\n")
 			if isBoolCode(code) && v == "" {
 				argv = append(argv, "--"+long)
 			} else {
 				argv = append(argv, "--"+long+"="+v)
+			}
+		}
+		// a field name in another letter case is no name of the option (only the ini-name is matched
+		// without regard to case): unless something else answers to that spelling, the entry is unknown
+		if fn := target.Field().Name; c.Rng.Intn(6) == 0 {
+			wrong := strings.ToLower(fn)
+			if wrong == fn {
+				wrong = strings.ToUpper(fn)
+			}
+			res := resolveIniName(s.opts, wrong)
+			if s.name == "" && len(s.path) == 0 {
+				res = resolveGlobalIniName(real.p.Command.Group, wrong)
+			}
+			ciClash := false
+			for _, o := range s.opts {
+				if strings.EqualFold(reflectTag(o, "ini-name"), wrong) {
+					ciClash = true
+				}
+			}
+			if wrong != fn && res == nil && !ciClash {
+				text := ""
+				if secName != "" {
+					text = "[" + secName + "]\n"
+				}
+				text += wrong + " = " + vals[0] + "\n"
+				w := *cs
+				w.Ops = []Op{{Kind: "iniparse", Text: text}}
+				w.Description = describeOps(&w)
+				c.RunCases([]*Case{&w}, func(cr *CaseResult) {
+					c.Class("c13/field-name-in-the-wrong-letter-case")
+					l := firstLine(cr.Impl, "INI ")
+					ok := strings.HasPrefix(l, "INI ini ") && strings.Contains(decodeLine(l), "unknown option")
+					inW := map[string]interface{}{"ini": text, "field_name": fn, "written_as": wrong}
+					if !ok {
+						inW["case_file"] = c.saveCase(cr)
+					}
+					c.Check("field-name-matches-exactly", ok, "C13:field-name-case", inW, decodeLine(l), "unknown option: "+wrong)
+				})
 			}
 		}
 		asDefaults := c.Rng.Intn(3) == 0
